@@ -106,7 +106,15 @@ def rule_visit2(prog, rep, tier, anchor="ast_utils.RewriteAtQuery"):
                     and isinstance(st.value, ast.Constant) and st.value.value is True:
                 n += 1
                 fs = [f for t, p in expr_guards(st, stop=m.node) for f in facts(t, p)]
-                if any(isinstance(a, ast.Attribute) and a.attr == "replaced" and p is False for a, p in fs):
+                guarded = any(isinstance(a, ast.Attribute) and a.attr == "replaced" and p is False for a, p in fs)
+                if not guarded and not name.startswith(("visit_", "generic_visit")):
+                    # a private helper method: the guard may sit at every call site inside the class
+                    sites = [(mm, c) for mm in ci.methods.values() for c in ast.walk(mm.node)
+                             if isinstance(c, ast.Call) and isinstance(c.func, ast.Attribute) and c.func.attr == name and isinstance(c.func.value, ast.Name) and c.func.value.id == "self"]
+                    if sites and all(any(isinstance(a, ast.Attribute) and a.attr == "replaced" and p is False
+                                         for t, pp in expr_guards(c, stop=mm.node) for a, p in facts(t, pp)) for mm, c in sites):
+                        guarded = True
+                if guarded:
                     rep.holds("VISIT-2", "%s sets replaced only under `not self.replaced`" % name, loc(prog, st), "")
                 else:
                     rep.violation(Finding("VISIT-2", "%s.%s" % (anchor, name), "replaced-unguarded",
@@ -448,19 +456,34 @@ def rule_visit5(prog, rep, tier, anchor="emitter_utils.RewriteName", user="emit.
     vn = ci.methods.get("visit_Name")
     if vn is None:
         raise AnalysisError("VISIT-5: %s.visit_Name not found" % anchor)
-    # (a) membership guard on the construction of the Attribute
-    ok_a = False
-    for n in ast.walk(vn.node):
-        if isinstance(n, ast.Call) and (n.func.id if isinstance(n.func, ast.Name) else getattr(n.func, "attr", "")) == "Attribute":
-            fs = [f for t, p in expr_guards(n, stop=vn.node) for f in facts(t, p)]
-            tests = [t for t, p in expr_guards(n, stop=vn.node)]
-            for t in tests:
-                for c in ast.walk(t):
-                    if isinstance(c, ast.Compare) and len(c.ops) == 1 and isinstance(c.ops[0], ast.In) and isinstance(c.left, ast.Attribute) and c.left.attr == "id" \
-                            and isinstance(c.comparators[0], ast.Attribute) and c.comparators[0].attr == "node_ids":
-                        ok_a = True
+    # (a) every return of visit_Name that is not a delegation to generic_visit (i.e. a rewrite) is guarded by membership
+    #     of node.id in the rename set (`id in S` true, or `id not in S` false, possibly next to the empty-set disjunct)
+    def _membership_ok(guards):
+        for t, pol in guards:
+            for c in ast.walk(t):
+                if isinstance(c, ast.Compare) and len(c.ops) == 1 and isinstance(c.left, ast.Attribute) and c.left.attr == "id" \
+                        and isinstance(c.comparators[0], ast.Attribute) and c.comparators[0].attr == "node_ids":
+                    if isinstance(c.ops[0], ast.In) and pol is True:
+                        return True
+                    if isinstance(c.ops[0], ast.NotIn) and pol is False:
+                        return True
+        return False
+
+    rewrites = []
+    for r in ast.walk(vn.node):
+        if not isinstance(r, ast.Return) or r.value is None:
+            continue
+        alts = [r.value.body, r.value.orelse] if isinstance(r.value, ast.IfExp) else [r.value]
+        for a in alts:
+            is_delegate = isinstance(a, ast.Call) and isinstance(a.func, ast.Attribute) and a.func.attr == "generic_visit"
+            is_same = isinstance(a, ast.Name) and a.id in vn.params()
+            if not (is_delegate or is_same):
+                rewrites.append(a)
+    if not rewrites:
+        raise AnalysisError("VISIT-5: visit_Name of %s never rewrites" % anchor)
+    ok_a = all(_membership_ok(expr_guards(a, stop=vn.node)) for a in rewrites)
     if ok_a:
-        rep.holds("VISIT-5", "visit_Name rewrites under `node.id in self.node_ids`", loc(prog, vn.node), "")
+        rep.holds("VISIT-5", "visit_Name rewrites only under `node.id in self.node_ids` (%d rewriting return(s))" % len(rewrites), loc(prog, vn.node), "")
     else:
         rep.violation(Finding("VISIT-5", anchor, "rename-without-membership",
                               "visit_Name builds self.<name> without testing membership of the name in the rename set: every name is touched", loc(prog, vn.node)))
